@@ -1,5 +1,6 @@
 """C19, line level (audit round 7, items C5 / C4): replays on the real FileLogger with a line-based oracle,
-compared with the Lean model under the probed shapes (Cfg.oneWrite = fix F46, Cfg.sealsTail = fix F47).
+compared with the Lean model under the COMMITTED shapes (Cfg.oneWrite = fix F46 = /repo 85f4c48, Cfg.sealsTail = fix
+F47 = /repo efaf20c: both `true`; the probes on the real router()/updateFile() must say so too - audit B12).
 Harness: harness/e8/tofile_lines_test.go. Theorems: Nsq.Props.C19Lines."""
 import os
 import re
@@ -19,6 +20,22 @@ def shapes_from_gen():
     return {"one_write": '"..._, err := f.Write(record)"' in txt, "seals_tail": "f.sealTornTail(absFilename)" in txt}
 
 
+def committed_shape_ops(src, dst):
+    """`tf conf … <closeClears> <oneWrite> <sealsTail>`: the harness writes what it PROBED on the real code; the model is run
+    with the committed values oneWrite = sealsTail = 1 (F46, F47), so a tree that reverts one of them disagrees with the
+    model line by line. closeClears (fix F44, NOT committed: a proposal) stays as probed. Returns the probed pairs seen."""
+    seen = set()
+    with open(dst, "w") as fh:
+        for o in open(src).read().splitlines():
+            w = o.split(" ")
+            if len(w) >= 12 and w[0] == "tf" and w[1] == "conf":
+                seen.add((w[10], w[11]))
+                w[10], w[11] = "1", "1"
+                o = " ".join(w)
+            fh.write(o + "\n")
+    return seen
+
+
 def lines_leg(ctx, parent, corr_broken):
     out = os.path.join(ctx.work, "tf_lines")
     os.makedirs(out, exist_ok=True)
@@ -32,13 +49,15 @@ def lines_leg(ctx, parent, corr_broken):
     one_write, seals = (mp.group(1) == "1", mp.group(2) == "1") if mp else (False, False)
     gen = shapes_from_gen()
     ctx.corr["lines_probe"] = {"one_write": one_write, "seals_tail": seals, "regenerated_skeleton": gen}
-    if gen is None or gen["one_write"] != one_write or gen["seals_tail"] != seals:
-        corr_broken.append("line-level shapes: probe on the real router()/updateFile() (one_write=%s seals_tail=%s) "
-                           "disagrees with the regenerated skeleton (%s)" % (one_write, seals, gen))
-    # correspondence: the same scenarios through the model with the probed shapes
+    if gen is None or not (gen["one_write"] and gen["seals_tail"] and one_write and seals):
+        corr_broken.append("line-level shapes: probe on the real router()/updateFile() (one_write=%s seals_tail=%s), regenerated "
+                           "skeleton (%s); expected one_write = seals_tail = true everywhere (F46 85f4c48, F47 efaf20c)"
+                           % (one_write, seals, gen))
+    # correspondence: the same scenarios through the model with the COMMITTED shapes
     ops = open(os.path.join(out, "tflines.ops")).read().splitlines()
     impl = open(os.path.join(out, "tflines.impl")).read().splitlines()
-    rc, mout = ctx.driver("e8", stdin_path=os.path.join(out, "tflines.ops"))
+    committed_shape_ops(os.path.join(out, "tflines.ops"), os.path.join(out, "tflines.model.ops"))
+    rc, mout = ctx.driver("e8", stdin_path=os.path.join(out, "tflines.model.ops"))
     for o, i in zip(ops, impl):
         ctx.count_case(o + "|" + i, nontrivial=not o.startswith("tf conf"))
     for idx, a, b in ctx.diff_lines(impl, mout.splitlines(), "tofile-lines"):
@@ -62,7 +81,7 @@ def lines_leg(ctx, parent, corr_broken):
         replay = "scenario=%s (harness/e8/tofile_lines_test.go, TestVerifToFileLines)\nfinished=%s\nwithout an own line=%s\ntree=%s\n" % (
             r["case"], fins, missing, r["tree"])
         if r["case"] == "two-routers":
-            key = "two-routers-one-file" if not one_write else "two-routers-one-file-although-single-write"
+            key = "two-routers-one-file"   # listed fixed (F46): a reproduction is a VIOLATION
             what = ("nsq_to_file: two topics with a --filename-format without <TOPIC> append to one plain file (O_APPEND); router 1 was "
                     "between Write(body) and Write(\"\\n\") when router 2 appended its record: FINished message(s) %s are not a line of "
                     "the file (Lean: Props.C19Lines.shared_file_unfixed_witness; with fix F46 shared_file_lines_fixed)" % missing)
@@ -74,7 +93,7 @@ def lines_leg(ctx, parent, corr_broken):
             key = "lines-append-to-terminated-file"
             what = "nsq_to_file: message(s) %s FINished but not a line of any file after appending to a newline-terminated file" % missing
         else:
-            key = "torn-tail-append" if not seals else "torn-tail-append-although-sealed"
+            key = "torn-tail-append"   # listed fixed (F47): a reproduction is a VIOLATION
             what = ("nsq_to_file: an existing plain file that ends inside a record (writer killed between Write(body) and Write(\"\\n\"), "
                     "or a short write) is re-opened with O_APPEND and the next record is appended to the torn tail: FINished message(s) %s "
                     "are not a line of any file (Lean: Props.C19Lines.fin_owns_line_full_false; with fix F47 fin_owns_line_fixed)" % missing)
